@@ -78,7 +78,38 @@ JudgeC17(e) ==
         ELSE Bad("Format(Format(x)) differs from Format(x) (" \o e.layout \o " layout)")
     [] OTHER -> NAv
 
+\* C13: what the reference validator (Gen_Inject!Violated) rejects must be rejected by
+\* ReadFile or Generate; what it accepts must be accepted; never a crash or a hang
+C13Dev(x) ==
+  IF x.class = "reference to an undefined type" /\ "skipcheck:union_branch_types" \in Devs
+     /\ x.site \in {"union branch struct field", "union branch message field", "array element in union branch struct"}
+  THEN "skipcheck:union_branch_types"
+  ELSE IF x.class = "message index zero" /\ "skipcheck:index_zero" \in Devs THEN "skipcheck:index_zero"
+  ELSE IF x.class = "const literal not assignable to its type" /\ "skipcheck:const_range" \in Devs
+          /\ x.site \in {"uint8 = 256", "uint32 = -1", "int16 = 40000"} THEN "skipcheck:const_range"
+  ELSE IF x.class = "duplicate definition name" /\ "skipcheck:union_inner_duplicate" \in Devs
+          /\ x.site \in {"union branch/top level", "union branch/union branch"} THEN "skipcheck:union_inner_duplicate"
+  ELSE IF x.class = "definition named like a primitive" /\ "skipcheck:union_inner_duplicate" \in Devs
+          /\ x.site = "union branch" THEN "skipcheck:union_inner_duplicate"
+  ELSE IF x.class = "duplicate field name" /\ "skipcheck:union_branch_field_names" \in Devs
+          /\ x.site \in {"union branch struct", "union branch message"} THEN "skipcheck:union_branch_field_names"
+  ELSE ""
+
+JudgeC13(e) ==
+  LET c == Cases[e.cid]  x == c.extra IN
+  CASE e.ev = "inject" ->
+        IF e.crash # "" THEN Bad("validation does not terminate normally (" \o e.crash \o ") on: " \o x.class \o " / " \o x.site)
+        ELSE IF x.expect = "unspec" THEN OKv
+        ELSE IF x.expect = "accept" THEN
+             (IF e.accepted THEN OKv
+              ELSE Bad("a valid schema is rejected" \o (IF c.part = "graph" THEN " (recursion that can terminate)" ELSE "")))
+        ELSE IF ~e.accepted THEN OKv
+        ELSE IF C13Dev(x) # "" THEN Known(C13Dev(x), "accepted although: " \o x.class \o " (" \o x.site \o ")")
+        ELSE Bad("accepted although: " \o x.class \o (IF c.part = "graph" THEN "" ELSE " (" \o x.site \o ")"))
+    [] OTHER -> NAv
+
 Judge(e) == CASE Prop = "C11" -> JudgeC11(e)
+              [] Prop = "C13" -> JudgeC13(e)
               [] Prop = "C16" -> JudgeC16(e)
               [] Prop = "C17" -> JudgeC17(e)
               [] OTHER -> NAv
